@@ -16,7 +16,7 @@ def run(tier, seed):
         ck.violation("harness-build", {"kind": "build"}, {"log": log[-3000:]}, no_input=True)
         return ck.finish()
     rc, out = sh([binp, "-seed", str(seed), "-n", str(n)], timeout=1200)
-    cases = [json.loads(l) for l in out.split("\n") if l.startswith("{")]
+    cases = jlines(out)
     if rc != 0 or not cases:
         ck.violation("harness-crash", {"kind": "crash"}, {"rc": rc, "tail": out[-3000:]})
         return ck.finish()
@@ -74,7 +74,7 @@ def run(tier, seed):
     else:
         n2 = 40 if tier == "quick" else 1500
         rc3, out3 = sh([b3, "-mode", "iso", "-seed", str(seed + 500), "-nvalid2", str(n2)], timeout=2400)
-        iso = [json.loads(l) for l in out3.split("\n") if l.startswith('{"ev":"iso"')]
+        iso = jlines(out3, '{"ev":"iso"')
         tcs = {"modules": n2, "runs": len(iso), "calls": sum(x.get("calls", 0) for x in iso), "skipped": sum(1 for x in iso if x.get("skip"))}
         dist["type_coverage_stream"] = tcs
         ck.cases += len(iso)
